@@ -370,8 +370,23 @@ func (h *Handler) Handle(params any) (any, error) {
 	return map[string]any{"req": idx, "op": h.Op}, nil
 }
 
-// NewUntyped creates an untyped API for the document with nothing registered.
+// NewUntyped creates an untyped API for the document with nothing registered;
+// the default media types are JSON unless the caller changes them.
 func NewUntyped(doc *loads.Document) *untyped.API {
-	api := untyped.NewAPI(doc)
+	api := untyped.NewAPI(doc).WithoutJSONDefaults()
+	api.DefaultConsumes = runtime.JSONMime
+	api.DefaultProduces = runtime.JSONMime
 	return api
+}
+
+// TagOf returns the identity tag of a scripted consumer ("" for nil, the Go
+// type for anything else).
+func TagOf(c runtime.Consumer) string {
+	switch v := c.(type) {
+	case nil:
+		return ""
+	case *Consumer:
+		return v.Tag
+	}
+	return fmt.Sprintf("untagged:%T", c)
 }
